@@ -92,6 +92,7 @@ static double rand_double(vt::Rng& r) {
   static const double fixed[] = {0.0, -0.0, 1.4, -10.5, 1e20, 2e6, 1e-7, 123456.0, 100000.0, 999999.0, 1000000.0, 0.1, 1.5e300, 2.5e-300,
       1e15, 123.456, 1e5, 1e16, 5e-1, 3.0};
   if (r.chance(35)) return fixed[r.below(20)];
+  if (r.chance(8)) return (double)r.range(1, 999999) + (r.chance(50) ? 0.4 : 0.0000004) * (r.chance(50) ? 1 : -1);  // near-integers with >= 6 digits
   long mant = (long)r.range(1, 999999);
   int e = (int)r.range(-300, 295);
   char buf[64];
@@ -377,7 +378,9 @@ int main(int argc, char** argv) {
         // every number of the fixed lists: integral-valued floats, exponent forms, extremes
         tree = JSON::list();
         for (double v : {0.0, -0.0, 1.4, -10.5, 1e20, 2e6, 1e-7, 123456.0, 100000.0, 999999.0, 1000000.0, 0.1, 1.5e300, 2.5e-300, 1e15, 123.456,
-                 1e5, 1e16, 5e-1, 3.0, -1.0, 1e6, 1e-5, 1e-4, 12345678.0, 0.000123456})
+                 1e5, 1e16, 5e-1, 3.0, -1.0, 1e6, 1e-5, 1e-4, 12345678.0, 0.000123456,
+                 // non-integral values that %g prints without '.' or exponent: they must still come back as floats
+                 123456.7, 99999.96, 3.0000001, 999999.4, 100000.5, -123456.7, 7.0000002, 0.99999996, 12345.67})
           tree.emplace_back(JSON(v));
         for (int64_t v : {(int64_t)0, (int64_t)-1, (int64_t)1, INT64_MIN, INT64_MAX, INT64_MIN + 1, (int64_t)255, (int64_t)-256, (int64_t)1000000, (int64_t)4294967296LL})
           tree.emplace_back(JSON(v));
